@@ -15,7 +15,7 @@ func notYet(id string) {
 }
 
 func init() {
-	for _, id := range []string{"C01", "C02", "C03", "C04", "C05", "C07", "C08", "C10", "C11", "C12", "C13", "C15", "C18", "C19", "C20"} {
+	for _, id := range []string{"C01", "C02", "C03", "C04", "C05", "C07", "C08", "C10", "C11", "C12", "C13", "C15", "C19", "C20"} {
 		notYet(id)
 	}
 	claim("C06", "other",
@@ -38,4 +38,9 @@ func init() {
 		"Static check that every size increment in the attribute/CDATA escapers equals len(entity)-1 of the entity copied for the same byte and that the entity decodes to the byte escaped, so the output buffer can never be too small and the chosen quote is never emitted raw. Semantic preservation of whitespace/entity replacement is not decided.",
 		"Only the buffer-size/entity-agreement clause is decided.", "AST pattern rules with constant evaluation", "DESIGN.md 4/C17",
 		"Decided: T-ESCLEN for html.EscapeAttrVal, xml.EscapeAttrVal, xml.EscapeCDATAVal; whitespace/newline table membership used by ReplaceMultipleWhitespace. Not decided: decoded-text preservation, idempotence, whitespace-run semantics (value-level).")
+	claim("C18", "proof",
+		"Structural proof over js.Walk and the node type definitions: every node struct type with child fields has an arm (or is opened in place by its container), every child field is passed to Walk on every path that has not established it is nil, nodes are addressed inside the tree (no range/by-value copies), typed-nil pointers are guarded, Enter dominates all children, Exit is deferred exactly once on the visitor returned by Enter, and a nil visitor skips exactly the subtree. This is the property for the tree types as defined; it holds for every tree, not for sampled programs.",
+		"Walkability is defined by go/types method sets (a field is a child iff its type is an INode interface, or a (slice of) struct/pointer whose pointer type implements INode); Var.Link is tabled as a scope-table link; ClassElement/ClassElementName are tabled as documented unions.",
+		"exhaustiveness + per-arm coverage rules on the type-checked AST; dominator rules on SSA", "DESIGN.md 4/C18",
+		"Decided: R-WALK (arms, field coverage, in-tree addressing, typed-nil guards), R-WALKORDER (Enter/Exit protocol). Not decided: nothing of the stated property for trees built from the declared node types; that js.Parse only builds such trees is by Go's type system.")
 }
